@@ -211,6 +211,65 @@ func c09(c *core.Ctx) {
 		}
 		k.Distinct(fmt.Sprintf("lzs|%d|%d", gi, leadingZeros(sh)))
 	})
+	// the combined call (draw an exponent, compute public value and shared secret) under a KNOWN random stream, with
+	// peer values that stand in a relation to the locally drawn exponent: the peer drew the same exponent (both ends
+	// seeded alike, or a reflected KE payload), its neighbours, and the usual special values
+	c.Family("materials-related-peer", c.N(48, 6000), func(k *core.Case) {
+		gi := k.Index % 2
+		_, p, n := grp(gi)
+		seed := k.R.U64()
+		var x *big.Int
+		var xerr error
+		mon.WithRand(core.NewRng(seed), func() { x, xerr = security.GenerateRandomNumber() })
+		if xerr != nil {
+			k.Violate("error", "GenerateRandomNumber-error", xerr.Error(), nil)
+			return
+		}
+		own := ref.FixedLen(ref.ModExp(big.NewInt(2), x, p), n)
+		var peer []byte
+		rel := k.Index / 2 % 8
+		switch rel {
+		case 0:
+			peer = own // the peer drew the same exponent
+		case 1:
+			peer = new(big.Int).SetBytes(own).Bytes() // the same without leading zeros
+		case 2:
+			peer = ref.FixedLen(ref.ModExp(big.NewInt(2), new(big.Int).Add(x, big.NewInt(1)), p), n)
+		case 3:
+			peer = ref.FixedLen(new(big.Int).Sub(p, new(big.Int).SetBytes(own)), n) // -own mod p
+		case 4:
+			peer = ref.FixedLen(big.NewInt(int64(k.R.Pick(0, 1, 2))), n)
+		case 5:
+			peer = ref.FixedLen(new(big.Int).Sub(p, big.NewInt(1)), n)
+		case 6:
+			peer = append([]byte{0}, own...) // one octet longer (leading zero)
+		default:
+			peer = k.R.Bytes(n)
+		}
+		key := newInfoKey(k.R.Intn(3), k.R.Intn(3), k.R.Intn(3), gi)
+		var pub, shared []byte
+		var err error
+		k.Eval(1)
+		pn := core.Try(func() {
+			mon.WithRand(core.NewRng(seed), func() { pub, shared, err = security.CalculateDiffieHellmanMaterials(key, append([]byte{}, peer...)) })
+		})
+		w := M{"group": libsa.DhNames[gi], "relation": rel, "x": x.Text(16), "peer": core.Hex(peer)}
+		if pn != nil {
+			k.Violate("panic", "materials: "+pn.Sig(), "panic", panicData(pn, w))
+			return
+		}
+		if err != nil {
+			k.Violate("error", fmt.Sprintf("materials-refused/relation%d", rel), "a healthy random source and a peer value in range: "+err.Error(), w)
+			return
+		}
+		wantS := ref.FixedLen(ref.ModExp(new(big.Int).SetBytes(peer), x, p), n)
+		if !bytes.Equal(pub, own) || !bytes.Equal(shared, wantS) {
+			k.Violate("mismatch", fmt.Sprintf("materials-wrong/relation%d", rel), fmt.Sprintf("public %x..., shared %x...; reference %x..., %x...", pub[:6], shared[:6], own[:6], wantS[:6]), w)
+			return
+		}
+		k.Count("materials_with_related_peer", 1)
+		k.Distinct(fmt.Sprintf("materials|%d|%d", gi, rel))
+	})
 	c.Family("agreement", c.N(40, 10000), func(k *core.Case) {
 		noiseFor(k)
 		gi := k.Index % 2
@@ -408,7 +467,8 @@ func c09(c *core.Ctx) {
 			}
 		}
 	})
-	c.Require("short_read_sources", "low_draw_runs", "lz_shared_1", "lz_shared_100+", "lz_public_100+", "below_minimum_retried", "fault_at_read_0", "lz_shared_searched")
+	freshFamily(c, "C09", "fresh-process", c.N(2, 40))
+	c.Require("materials_with_related_peer", "fresh_process_cases_ok", "short_read_sources", "low_draw_runs", "lz_shared_1", "lz_shared_100+", "lz_public_100+", "below_minimum_retried", "fault_at_read_0", "lz_shared_searched")
 }
 
 // ---------------------------------------------------------------------------
@@ -759,7 +819,8 @@ func c10(c *core.Ctx) {
 		}
 		k.Distinct(fmt.Sprintf("hist|%d|%d", kl, k.Index/3%8))
 	})
-	c.Require("long_lived_cipher_object_histories", "wrong_size_key_already_in_use_under_its_own_size", "key_buffer_reuse_cases", "short_read_sources", "fault_at_read_0", "fault_at_read_1", "lib_pad_0", "lib_pad_15")
+	freshFamily(c, "C10", "fresh-process", c.N(1, 30))
+	c.Require("fresh_process_cases_ok", "long_lived_cipher_object_histories", "wrong_size_key_already_in_use_under_its_own_size", "key_buffer_reuse_cases", "short_read_sources", "fault_at_read_0", "fault_at_read_1", "lib_pad_0", "lib_pad_15")
 }
 
 var _ = message.TypeSK
